@@ -208,6 +208,21 @@ func (p *Prog) parseContractFile(rel, file, src string) []string {
 			if cur != nil {
 				cur.Assumes = append(cur.Assumes, rest)
 			}
+		case "define":
+			// define name(p1, p2) = expr   (file-level macro, usable in all contracts)
+			eqi := strings.Index(rest, "=")
+			lp, rp := strings.Index(rest, "("), strings.Index(rest, ")")
+			if eqi < 0 || lp < 0 || rp < lp || rp > eqi {
+				fail("define: expected name(params) = expr")
+				continue
+			}
+			name := strings.TrimSpace(rest[:lp])
+			ex, err := parseExpr(strings.TrimSpace(rest[eqi+1:]))
+			if err != nil {
+				fail(fmt.Sprintf("define %s: %v", name, err))
+				continue
+			}
+			p.Macros[name] = &Macro{Name: name, Params: splitNames(rest[lp+1 : rp]), Body: ex}
 		default:
 			// free text line (documentation) is allowed after "note"
 			if word != "note" {
@@ -259,6 +274,12 @@ func autoLabel(txt string) string {
 	return strings.Trim(b.String(), "_")
 }
 
+type Macro struct {
+	Name   string
+	Params []string
+	Body   Expr
+}
+
 // ---------- expressions ----------
 
 type Expr interface{}
@@ -284,6 +305,7 @@ type (
 	}
 	EIndex struct{ X, I Expr }
 	EQuant struct {
+		Sum    bool
 		Forall bool
 		Var    string
 		Lo, Hi Expr
@@ -398,7 +420,7 @@ var prec = map[string]int{"<==>": 1, "==>": 2, "||": 3, "&&": 4, "==": 5, "!=": 
 
 func (p *parser) expr(minPrec int) (Expr, error) {
 	// quantifiers bind loosest
-	if p.peek().k == "id" && (p.peek().v == "forall" || p.peek().v == "exists") {
+	if p.peek().k == "id" && (p.peek().v == "forall" || p.peek().v == "exists" || p.peek().v == "sum") && p.ts[p.i+1].k == "id" {
 		return p.quant()
 	}
 	lhs, err := p.unary()
@@ -444,7 +466,8 @@ func (p *parser) expr(minPrec int) (Expr, error) {
 }
 
 func (p *parser) quant() (Expr, error) {
-	q := &EQuant{Forall: p.next().v == "forall"}
+	kw := p.next().v
+	q := &EQuant{Forall: kw == "forall", Sum: kw == "sum"}
 	if p.peek().k != "id" {
 		return nil, fmt.Errorf("quantifier: expected variable")
 	}
@@ -723,6 +746,9 @@ func (e *Engine) eval(x Expr, env *evalEnv) Val {
 		bv := fmt.Sprintf("%s_q%d", mangle(y.Var), e.qn)
 		sub := env.with(y.Var, Val{S: bv, T: vt})
 		body := e.eval(y.Body, sub)
+		if y.Sum {
+			return e.evalSum(y, env, bv, body)
+		}
 		rng := "true"
 		if y.Lo != nil {
 			lo, hi := e.eval(y.Lo, env), e.eval(y.Hi, env)
@@ -989,8 +1015,38 @@ func (e *Engine) evalCall(y *ECall, env *evalEnv) Val {
 		}
 	case "isnil":
 		return Val{S: e.isNil(arg(0)), T: specBool}
-	case "typeis":
-		// typeis(x, "pkg.Type")
+	case "typeis", "as":
+		if !need(2) {
+			break
+		}
+		lit, ok := y.Args[1].(*ELit)
+		if !ok || lit.Kind != "str" {
+			return e.evalErr(y.Fn + ": second argument must be a type path string")
+		}
+		t := e.prog.lookupType(lit.Val)
+		if t == nil {
+			return e.evalErr("contract-stale: unknown type " + lit.Val)
+		}
+		x := arg(0)
+		tag, key := e.typeTag(t)
+		if y.Fn == "typeis" {
+			return Val{S: eq(app("typeof", x.S), fmt.Sprint(tag)), T: specBool}
+		}
+		m := mangle(key)
+		srt := e.vc.sortOf(t)
+		e.vc.declFun("box_"+m, []string{srt}, "Iface")
+		e.vc.declFun("unbox_"+m, []string{"Iface"}, srt)
+		return Val{S: app("unbox_"+m, x.S), T: t}
+	}
+	if m, ok := e.prog.Macros[y.Fn]; ok {
+		if len(m.Params) != len(y.Args) {
+			return e.evalErr("macro " + y.Fn + ": wrong number of arguments")
+		}
+		sub := env
+		for i, pn := range m.Params {
+			sub = sub.with(pn, arg(i))
+		}
+		return e.eval(m.Body, sub)
 	}
 	if v, ok := e.specFunc(y, env); ok {
 		return v
@@ -1124,4 +1180,51 @@ func (fr *Frame) rangeKeyName(li *loopInfo) string {
 		return ""
 	}
 	return rangeKeyOf(li.stmt)
+}
+
+// evalSum: sum v in [lo,hi) :: body. The sum is an uninterpreted function of its upper bound, identified by
+// the text of lo and body; each evaluation adds the one-step unfolding at the evaluated bound (no quantifier).
+func (e *Engine) evalSum(y *EQuant, env *evalEnv, bv string, body Val) Val {
+	if y.Lo == nil {
+		return e.evalErr("sum needs a range")
+	}
+	lo, hi := e.eval(y.Lo, env), e.eval(y.Hi, env)
+	canon := strings.ReplaceAll(body.S, bv, "%v") + "|" + lo.S
+	fn, ok := e.sumFns[canon]
+	if !ok {
+		fn = fmt.Sprintf("sumfn_%d", len(e.sumFns)+1)
+		e.sumFns[canon] = fn
+		e.vc.declFun(fn, []string{"Int"}, "Int")
+		e.vc.assume(eq(app(fn, lo.S), "0"))
+	}
+	at := func(t string) string { return replaceToken(body.S, bv, t) }
+	h := hi.S
+	prev := app("-", h, "1")
+	e.vc.assume(implies(app("<=", h, lo.S), eq(app(fn, h), "0")))
+	e.vc.assume(implies(app(">", h, lo.S), eq(app(fn, h), app("+", app(fn, prev), at(prev)))))
+	return Val{S: app(fn, h), T: specInt}
+}
+
+func replaceToken(s, tok, with string) string {
+	var b strings.Builder
+	i := 0
+	for i < len(s) {
+		j := strings.Index(s[i:], tok)
+		if j < 0 {
+			b.WriteString(s[i:])
+			break
+		}
+		j += i
+		end := j + len(tok)
+		okL := j == 0 || s[j-1] == '(' || s[j-1] == ' '
+		okR := end == len(s) || s[end] == ')' || s[end] == ' '
+		b.WriteString(s[i:j])
+		if okL && okR {
+			b.WriteString(with)
+		} else {
+			b.WriteString(tok)
+		}
+		i = end
+	}
+	return b.String()
 }
